@@ -22,9 +22,9 @@ import extract  # noqa: E402
 import registry  # noqa: E402
 import kanirun  # noqa: E402
 
-GEN = os.path.join(ROOT, 'gen')
-REPLAY = os.path.join(ROOT, 'replay')
-EVID = os.path.join(ROOT, 'evidence')
+GEN = os.environ.get('VERIF_GEN') or os.path.join(ROOT, 'gen')
+REPLAY = os.environ.get('VERIF_REPLAY') or os.path.join(ROOT, 'replay')
+EVID = os.environ.get('VERIF_EVID') or os.path.join(ROOT, 'evidence')
 VERUS = shutil.which('verus') or '/opt/veriftools/verus/verus'
 
 UNDECIDED_PATTERNS = [
